@@ -5,11 +5,11 @@ from harness import dtwgen
 
 COQ_FILES = ["theories/BandTie.v", "theories/Prune.v", "theories/PyDist.v", "theories/PyDistProofs.v",
              "theories/PyDistPrune.v", "gen/Gen_cdist.v", "theories/CDistCanon.v", "theories/CDistTie.v",
-             "theories/CDistProofs.v", "theories/CDistSpec.v", "gen/Gen_ced.v", "theories/CEd.v", "props/C03.v"]
+             "theories/CDistProofs.v", "theories/CDistSpec.v", "gen/Gen_ced.v", "theories/CEd.v", "gen/Gen_pydist.v", "theories/PyDistGen.v", "props/C03.v"]
 THEOREMS = [("DVProps.C03", "C03_pruning_sound_partial"), ("DVProps.C03", "C03_max_dist_result_partial"),
             ("DVProps.C03", "C03_euclidean_bound_keeps_value"), ("DVProps.C03", "C03_pruned_code_model_exact"),
             ("DVProps.C03", "C03_c_kernel_result_is_bounded_value"), ("DVProps.C03", "C03_c_kernel_no_bound_no_cut"),
-            ("DVProps.C03", "C03_c_use_pruning_keeps_value")]
+            ("DVProps.C03", "C03_c_use_pruning_keeps_value"), ("DVProps.C03", "C03_py_distance_as_written_bounded")]
 TRUSTED_BASE = [
     "Coq 8.16.1 kernel (no native_compute)",
     "the sc/ec/ec_next/smaller_found/break bookkeeping of dtw.distance is modelled as written (PyDist.distp_model, "
@@ -164,6 +164,15 @@ def expected(cases, oracle):
         lines.append(dtwgen.oracle_line("pydistp %d" % b, c))
     for k, a in zip(idx, oracle.query(lines)):
         out[k]["as_written"] = None if a.startswith("ERR") else (math.inf if a == "inf" else int(a))
+    # dtw.distance as REGENERATED from dtw.py (Gen_pydist.v) with the same bound, for the Python single-pair routine
+    ridx = [k for k, l in zip(idx, lines) if cases[k]["site"] == "py.distance"]
+    rlines = [l.replace("pydistp", "pygen", 1) for k, l in zip(idx, lines) if cases[k]["site"] == "py.distance"]
+    for k, a in zip(ridx, oracle.query(rlines)):
+        if a.startswith("ERR"):
+            out[k]["regenerated"] = None
+        else:
+            tag, val, okflag = a.split()
+            out[k]["regenerated"] = (math.inf if val == "inf" else int(val), okflag == "ok")
     return out
 
 
@@ -209,6 +218,15 @@ def judge(case, got, exp):
         # tie of the hand model PyDist.distp_model to the code (judged on every setting, begin psi included)
         out.append({"kind": "as-written-pruned-model-differs-from-code", "got": float(g[0]),
                     "model": dtwgen.result_transform(exp["as_written"], idn)})
+    if "regenerated" in exp:
+        if exp["regenerated"] is None:
+            return {"kind": "oracle-error"}
+        rv, rok = exp["regenerated"]
+        if not rok:
+            out.append({"kind": "regenerated-routine-reports-bad-subscript-or-assert"})
+        elif float(g[0]) != dtwgen.result_transform(rv, idn):
+            out.append({"kind": "regenerated-routine-differs-from-code", "got": float(g[0]),
+                        "regenerated": dtwgen.result_transform(rv, idn)})
     for k, (gv, v) in enumerate(zip(g, exp["internal"])):
         gv = float(gv)
         true_d = dtwgen.result_transform(v, idn)
